@@ -15,6 +15,7 @@ import LinVerif.Lemmas.C14FixedOffset
 import LinVerif.Lemmas.C14Delta
 import LinVerif.Lemmas.C14Facts
 import LinVerif.Lemmas.C14Stream
+import LinVerif.Lemmas.C14Pool
 
 namespace LinVerif.Props.C14
 open LinVerif LinVerif.Bits LinVerif.Varint
@@ -761,6 +762,48 @@ theorem tsd_stream_roundtrip (s e : Nat) (fs : List Stream.Field) (pooled : Dec)
 
 end StreamCodec
 
+/-! ## 7e. the pools: no object is handed to two holders -/
+
+section Pools
+open LinVerif.Pool
+
+/-- **pool_no_double_put.** lindb's three codec pools (`encoderPool`, `decoderPool`,
+`fixedOffsetDecoderPool`) modelled as a multiset with `Get`/`Put`: for every history of acquisitions and
+releases in which only the holder of an object releases it (so at most once per acquisition), the
+invariant "an object is in the pool at most once and never while it is in use" holds, and therefore two
+acquisitions without a release in between return two different objects — what the reset-equals-fresh
+theorems need in order to apply to each holder separately. -/
+theorem pool_no_double_put (ops : List Pool.Op) (h : Disciplined State.init ops) :
+    Inv (run State.init ops) ∧ (run State.init ops).get.1 ≠ (run State.init ops).get.2.get.1 :=
+  ⟨run_inv ops _ init_inv h, two_gets_distinct _ (run_inv ops _ init_inv h)⟩
+
+/-- the call structure provides that discipline for the TSD stream reader: over one lifetime
+(`NewTSDStreamReader`, any number of `TimeRange/HasNext/Next`, one `Close`) the regenerated call orders
+contain exactly one `GetTSDDecoder` and exactly one `ReleaseTSDDecoder` (in `Close`, nowhere else) -/
+theorem stream_reader_releases_once : readerLifetimeAcquires = 1 ∧ readerLifetimeReleases = 1 := by decide
+
+/-- hence a reader lifetime started in any consistent pool state is a disciplined trace -/
+theorem stream_reader_lifetime_disciplined (s : State) (h : Inv s) :
+    Disciplined s (.acquire :: List.replicate readerLifetimeReleases (.release s.get.1)) := by
+  rw [stream_reader_releases_once.2]
+  exact ⟨(get_inv s h).2.1, trivial⟩
+
+namespace Neg
+/-- what a second `Put` of the same object does (a reader whose `HasNext` AND `Close` both release):
+the next two holders are handed the same object -/
+theorem pool_double_put_aliases :
+    (run State.init [.acquire, .release 0, .release 0]).get.1
+      = (run State.init [.acquire, .release 0, .release 0]).get.2.get.1 ∧
+    ¬ Disciplined State.init [.acquire, .release 0, .release 0] := by
+  refine ⟨by decide, ?_⟩
+  intro h
+  have h2 : (0 : Nat) ∈ (State.init.get.2.put 0).held := h.2.1
+  revert h2
+  decide
+end Neg
+
+end Pools
+
 /-! ## non-vacuity: the hypotheses are satisfiable by non-trivial inputs -/
 
 /-- a NaN with payload, an empty slot, -0.0, a subnormal: block starting at slot 65000 -/
@@ -840,6 +883,14 @@ theorem pool_calls_expected :
     Generated.C14.snappyWriterBytesCalls = ["buffer.Bytes", "len", "make", "copy", "buffer.Reset", "writer.Reset"] ∧
     Generated.C14.snappyReaderUncompressCalls = ["defer:?", "compressed.Write", "io.Copy", "decompressed.Bytes"] :=
   ⟨rfl, rfl, rfl, rfl, rfl, rfl, rfl, rfl⟩
+
+theorem tsd_stream_reader_calls_expected :
+    Generated.C14.newTSDStreamReaderCalls = ["stream.NewReader", "reader.ReadUint16", "reader.ReadUint16", "GetTSDDecoder"] ∧
+    Generated.C14.tsdStreamReaderHasNextCalls = ["reader.Empty"] ∧
+    Generated.C14.tsdStreamReaderNextCalls = ["reader.ReadUint16", "reader.ReadUvarint32", "int", "reader.ReadSlice",
+      "fieldData.ResetWithTimeRange"] ∧
+    Generated.C14.tsdStreamReaderCloseCalls = ["ReleaseTSDDecoder"] ∧
+    Generated.C14.tsdStreamReaderTimeRangeCalls = [] := ⟨rfl, rfl, rfl, rfl, rfl⟩
 
 theorem tsd_encoder_bytes_calls_expected :
     Generated.C14.tsdEncoderBytesCalls = ["FlushFunc", "timeBitBuf.Reset", "stream.PutUint16", "stream.PutUint16",
